@@ -193,10 +193,14 @@ type guardedField struct {
 }
 
 // Confirmed by reading (one row per shared mutable object of the library):
-var guardTable = []guardedField{
-	{"lib/concurrent", "Atom", []string{"Val", "version"}, "Mutex"},
-	{"lib/concurrent", "Future", []string{"Done", "Cancelled"}, "mu"},
-	{"env", "Env", []string{"data"}, "mu"},
+// guardRows: the lock discipline table; unexported fields are named by their role (roles.go).
+func (w *World) guardRows() []guardedField {
+	ro := w.roles()
+	return []guardedField{
+		{"lib/concurrent", "Atom", []string{"Val", ro.atomVersion}, ro.atomMutex},
+		{"lib/concurrent", "Future", []string{"Done", "Cancelled"}, ro.futureMu},
+		{"env", "Env", []string{ro.envData}, ro.envMu},
+	}
 }
 
 func (w *World) namedStruct(t types.Type) (pkgRel, name string, ok bool) {
@@ -671,7 +675,6 @@ func (w *World) paramFuncValues(p *ssa.Parameter) ([]*ssa.Function, bool) {
 	return out, n > 0
 }
 
-
 // escapes: the value is passed to a call (other than as the receiver of the lock-required method under
 // scrutiny), stored, captured or sent before the function returns it.
 func escapes(v ssa.Value) bool {
@@ -735,7 +738,6 @@ func escapes(v ssa.Value) bool {
 	}
 	return visit(v, 0)
 }
-
 
 // fieldStores: every value stored, anywhere in the module, into the field that fa selects (by struct type and
 // field index); ok is false when the field's address escapes in a way that hides stores.
